@@ -623,3 +623,25 @@ pub fn dgram_api_native(peer: u32, len_: u16, drop: bool) -> u32 {
         1
     }
 }
+
+/// Native replay body for the E2 slice query `e2_handle_packet_tail` (C08): a connection that has sent
+/// its CONNECTION_CLOSE (close timer armed) and then receives a stateless reset becomes drained - the
+/// close timer must not stay armed, and Drained is reported exactly once.
+pub fn handle_packet_tail_native(_x: u8) -> u32 {
+    let mut conn = mk_conn(false, false);
+    set_state(&mut conn, 2); // Closed: CONNECTION_CLOSE sent, waiting out the close timer
+    let t1 = crate::verif::mk_instant(60, 0).unwrap();
+    let now = crate::verif::mk_instant(51, 0).unwrap();
+    conn.timers.set(Timer::Close, t1);
+    while conn.endpoint_events.pop_front().is_some() {}
+    conn.handle_packet(now, addr(1, 4433), None, None, true);
+    assert!(conn.state.is_drained(), "a stateless reset must drain the connection");
+    assert!(conn.timers.get(Timer::Close).is_none(), "close timer still armed on a drained connection");
+    let drained = conn.endpoint_events.iter().filter(|e| matches!(e, EndpointEventInner::Drained)).count();
+    assert!(drained == 1, "Drained reported {} times", drained);
+    // a second reset changes nothing and reports nothing
+    conn.handle_packet(now, addr(1, 4433), None, None, true);
+    let drained = conn.endpoint_events.iter().filter(|e| matches!(e, EndpointEventInner::Drained)).count();
+    assert!(drained == 1, "Drained reported again");
+    1
+}
